@@ -1,10 +1,10 @@
 #!/bin/bash
-# usage: soak.sh <tier> <seed>...   runs every check under each seed; prints one line per run; non-zero if any run is not silent
+# usage: [CHECKS="C01 C05"] soak.sh <tier> <seed>...   runs every check under each seed; prints one line per run; non-zero if any run is not silent
 tier=$1; shift
 cd "$(dirname "$0")/.."
 rc=0
 for seed in "$@"; do
-  for id in $(python3 -c "import json;print(' '.join(c['property_id'] for c in json.load(open('MANIFEST.json'))['checks']))"); do
+  for id in ${CHECKS:-$(python3 -c "import json;print(' '.join(c['property_id'] for c in json.load(open('MANIFEST.json'))['checks']))")}; do
     out=$(VERIF_SEED=$seed ./check $id --tier $tier 2>&1)
     code=$?
     line=$(echo "$out" | grep -E "^\[$id\]" | tail -1)
